@@ -238,6 +238,13 @@ def forms(kind, xs, S):
             add("sort_on", "%s sort_on %s" % (S, ks), E(Seq(K, stable_sorted(xs, key=kf))))
         add("sort", "%s sort (<=>)" % S, E(Seq(K, stable_sorted(xs))))
         add("sort", "%s sort (>=<)" % S, E(Seq(K, stable_sorted(xs, key=Neg))))
+        if num:
+            # comparators whose result is not -1 / 0 / 1: only the sign counts (a small fraction, a float, a big difference)
+            add("sort", "%s sort (\\a, b -> (a - b) / 10)" % S, E(Seq(K, stable_sorted(xs))))
+            add("sort", "%s sort (\\a, b -> (b - a) / 1000)" % S, E(Seq(K, stable_sorted(xs, key=Neg))))
+            add("sort", "%s sort (\\a, b -> (a - b) * 0.001)" % S, E(Seq(K, stable_sorted(xs))))
+            add("sort", "%s sort (\\a, b -> (a - b) * 2^70)" % S, E(Seq(K, stable_sorted(xs))))
+            add("sort", "%s sort -" % S, E(Seq(K, stable_sorted(xs))))
         add("reverse", "reverse(%s)" % S, E(Seq(K, xs[::-1])))
         add("unique", "unique(%s)" % S, E(Seq(K, uniq(xs))))
         # --- grouping
